@@ -335,6 +335,34 @@ def check(prog, rep):
                     cands = [v for v in assigns.get(on, []) if isinstance(v, ast.AST) and v.lineno <= lam.lineno]
                     origin = cands[-1] if cands else None
                 ok = origin is not None and _from_map(origin, mapname)
+                if not ok and isinstance(origin, ast.Call) and isinstance(origin.func, ast.Name):
+                    # the index is produced by a module-level helper that is handed the name->position map: each of its
+                    # returns is read -- the looked-up position array is right; a slice / range built from END POINTS of
+                    # that array is wrong unless an element-wise test of contiguity stands in front of it
+                    hlp = prog.functions.get(f"{fi.module.name}:{origin.func.id}")
+                    if hlp is not None and any(src(a_) == mapname for a_ in origin.args):
+                        hp_ = [a_.arg for a_ in hlp.node.args.args]
+                        hmap = hp_[[src(a_) for a_ in origin.args].index(mapname)] if len(hp_) == len(origin.args) else None
+                        hasg = local_assignments(hlp.node)
+                        rets_ = [r_.value for r_ in walk_local(hlp.node, include_self=False) if isinstance(r_, ast.Return) and r_.value is not None]
+                        looked = {nm_ for nm_, vs_ in hasg.items() if any(isinstance(v_, ast.AST) and hmap and _from_map(v_, hmap) for v_ in vs_)}
+                        elementwise = any(isinstance(c_, ast.Call) and (dotted(c_.func) or "") in ("np.array_equal", "np.diff", "np.all", "all") for c_ in ast.walk(hlp.node))
+                        verdicts_ = []
+                        for rv_ in rets_:
+                            if isinstance(rv_, ast.Name) and rv_.id in looked:
+                                verdicts_.append(True)
+                            elif isinstance(rv_, ast.Call) and dotted(rv_.func) in ("slice", "range", "np.arange") and any(isinstance(x_, ast.Name) and (x_.id in looked or any(isinstance(v_, ast.AST) and any(isinstance(y_, ast.Name) and y_.id in looked for y_ in ast.walk(v_)) for v_ in hasg.get(x_.id, []))) for a_ in rv_.args for x_ in ast.walk(a_)):
+                                verdicts_.append(None if elementwise else False)
+                            else:
+                                verdicts_.append(None)
+                        if rets_ and all(v_ is True for v_ in verdicts_):
+                            ok = True
+                        elif False in verdicts_:
+                            rep.ob("R01.5", fi.name, False,
+                                   f"x[{src(idx)}] at line {lam.lineno}: the index comes from {hlp.name}(), which returns a slice / range built from the END POINTS of the looked-up positions with no element-wise test that the positions are consecutive: "
+                                   "for a variable list that keeps the vector's first and last variable n-1 slots apart but permutes or interleaves the others, the closure reads the wrong entries of x",
+                                   loc=f"{hlp.module.rel}:{hlp.node.lineno}", detail=f"subscript@{_arm_kind(lam, fi)}", robust=True)
+                            continue
                 if not ok and (origin is None or any(isinstance(c_, ast.Call) and isinstance(c_.func, ast.Name) and c_.func.id not in ("len", "range", "list", "enumerate", "tuple", "sorted", "int") for c_ in ast.walk(origin))):
                     rep.undecided(f"{fi.name}: x[{src(idx)}] at line {lam.lineno}: where the index comes from is not readable ({src(origin)[:40] if origin is not None else 'no local definition'})")
                     continue
